@@ -103,9 +103,26 @@ def strip_comments(text):
     return "".join(out)
 
 
-def grep_forbidden():
+def import_closure(roots):
+    seen, todo = set(), list(roots)
+    while todo:
+        m = todo.pop()
+        if m in seen:
+            continue
+        p = os.path.join(LEAN, *m.split(".")) + ".lean"
+        if not os.path.exists(p):
+            continue
+        seen.add(m)
+        for line in open(p):
+            mm = re.match(r"\s*import\s+(\S+)", line)
+            if mm:
+                todo.append(mm.group(1))
+    return sorted(os.path.join(LEAN, *m.split(".")) + ".lean" for m in seen)
+
+
+def grep_forbidden(roots=None):
     hits = []
-    for p in lean_sources():
+    for p in (import_closure(roots) if roots else lean_sources()):
         code = strip_comments(open(p).read())
         # string literals may legitimately contain the words (messages); drop them
         code = re.sub(r'"(?:[^"\\]|\\.)*"', '""', code)
@@ -430,7 +447,7 @@ def check(pid, tier, seed):
             raise MachineryError("the model/driver does not build:\n" + out[-4000:])
         errs = re.findall(r"error: (\S+\.lean:\d+:\d+: .*)", out)
         proof_broken = errs[:10] or [out[-2000:]]
-    forb = grep_forbidden()
+    forb = grep_forbidden([f"CnlProperties.{pid}", "Main"])
     if forb:
         raise MachineryError("forbidden constructs in Lean sources:\n" + "\n".join(forb))
     theorems = property_theorems(pid)
